@@ -16,13 +16,18 @@ fn prefixes() -> Vec<Vec<u8>> {
         enc(&RVal::arr(vec![RVal::s("prior"), RVal::u(7)])),
         vec![0x80, 0, 0, 1, 0x40, 0x20, 0xFF],
         (0..1023u32).map(|i| (i * 7 + 3) as u8).collect(),
+        // lengths 2 and 4 (every residue modulo 4 is present); the second one reads as an empty-array header
+        vec![0x20, 0x00],
+        vec![0x80, 0, 0, 0],
     ]
 }
 
 type Res = (Result<(), String>, Vec<u8>, Vec<u64>);
 
 fn run_on(c: &BufCall, data: &[u8], offs: &[u64]) -> Result<Res, PanicInfo> {
-    let mut d = data.to_vec();
+    // every other prior buffer comes with spare capacity (no reallocation while appending)
+    let mut d = Vec::with_capacity(data.len() + if data.len() % 2 == 1 { 8192 } else { 0 });
+    d.extend_from_slice(data);
     let mut o = offs.to_vec();
     let r = guard(|| (c.run)(&mut d, &mut o))?;
     Ok((r.map_err(|e| format!("{:?}", e)), d, o))
@@ -191,8 +196,8 @@ pub fn spaces(tier: Tier) -> Vec<Space<'static>> {
 
 pub fn meta(tier: Tier) -> (String, serde_json::Value, Vec<String>) {
     (
-        "every buffer-writing function (editors, builders, array set functions, Value/LazyValue::write_to_vec, convert_to_comparable, get_by_path*, Selector::select in 4 modes over a 16-path menu (4 of them fail only after earlier items were selected)) x every document of the universe x 6 prior buffer contents (empty, 1 byte, 5 bytes, a complete JSONB document, 7 unaligned bytes, 1023 bytes) and a non-empty offsets vector: out(prefix) must be prefix ++ out(empty), offsets shifted by the prefix length, errors leave buffer and offsets untouched. Batches: breadth-first search over sequences of calls into ONE buffer, menu of 40 (function,input) pairs, state = whole buffer + offsets, deduplicated on full content. Non-trivial = every call (each is a distinct function/argument/prefix combination).".into(),
-        json!({"universe": if tier.thorough() {"D2 and D1q"} else {"D2"}, "prefixes": 6, "batch_depth": if tier.thorough() {4} else {3}, "batch_menu": 40}),
+        "every buffer-writing function (editors, builders, array set functions, Value/LazyValue::write_to_vec, convert_to_comparable, get_by_path*, Selector::select in 4 modes over a 16-path menu (4 of them fail only after earlier items were selected)) x every document of the universe x 8 prior buffer contents (empty, 1, 2, 4, 5, 7 and 1023 bytes, a complete JSONB document; every length modulo 4; half of them with 8 KiB spare capacity) and a non-empty offsets vector: out(prefix) must be prefix ++ out(empty), offsets shifted by the prefix length, errors leave buffer and offsets untouched. Batches: breadth-first search over sequences of calls into ONE buffer, menu of 40 (function,input) pairs, state = whole buffer + offsets, deduplicated on full content. Non-trivial = every call (each is a distinct function/argument/prefix combination).".into(),
+        json!({"universe": if tier.thorough() {"D2 and D1q"} else {"D2"}, "prefixes": 8, "batch_depth": if tier.thorough() {4} else {3}, "batch_menu": 40}),
         vec!["a panic on an empty buffer is judged by the property that owns the function, not here".into()],
     )
 }
